@@ -17,7 +17,7 @@ class SPEC:
             "model's prediction and judged by Ipfix chkE2E directly against what was handed to SendSet. Non-trivial = >= 2 fields incl. one "
             "variable-length or enterprise element; distinct by hash.")
     assumptions = ["transports are the identity on messages once established (TCP framing: C11; UDP one datagram per message; TLS/DTLS trusted)",
-                   "UDP messages are kept <= 60000 bytes and DTLS messages <= 8000 bytes (datagram / record size limits of the transports)"]
+                   "ordinary UDP messages are kept <= 60000 bytes (some sessions add ONE datagram of the maximal payload: 65507 bytes over IPv4, 65527 over IPv6) and DTLS messages <= 8000 bytes (record size limits of the transport)"]
     trusted = ["crypto/tls, pion/dtls, the loopback interface"]
 
 
@@ -54,7 +54,10 @@ def session(rng, sup, transport, fam, limit):
         op = "e2e send %s d %d %s" % (rng.choice(X.PATHS), tid, ";".join(recs))
         if len(op) // 2 < limit:
             ops.append(op)
-    if var and limit > 60000 and rng.random() < 0.5:
+    # the largest message that fits: 65535 bytes on a stream, a whole datagram over UDP (65507 bytes of payload
+    # over IPv4, 65527 over IPv6 - the collector's buffer must take both)
+    full = {"tcp": 65535, "tls": 65535, "udp": 65527 if fam == "6" else 65507}.get(transport)
+    if var and full is not None and rng.random() < (0.5 if transport != "udp" else 0.12):
         # one record that fills the message: the largest variable-length payload that fits
         fixed = []
         size = 16 + 4
@@ -67,7 +70,7 @@ def session(rng, sup, transport, fam, limit):
                 fixed.append("%s=%s" % (ie.tok(), v))
                 import gen.ipfix as W
                 size += len(W.enc_value(ie, v))
-        payload = 65535 - size - 3
+        payload = full - size - 3
         vals = [f if f is not None else "%s=x%s" % (var[0].tok(), G.hexs(G.rand_bytes(rng, payload))) for f in fixed]
         ops.append("e2e send %s d %d %d@%s" % (rng.choice(X.PATHS), tid, tid, ",".join(vals)))
     ops.append("e2e close")
